@@ -1,5 +1,6 @@
 import Driver.Util
 import NutsModel.C16.Discovery
+import NutsModel.C16.Node
 import NutsModel.Facts.C16
 open Lean Nuts.Drv Nuts.C16 Nuts
 
@@ -35,6 +36,10 @@ structure St where
   d : Def := { id := "", maxValidity := 0, didMethods := [] }
   t0 : Nat := 0
   seeds : Array Nat := #[]
+  -- node leg (NutsModel/C16/Node.lean)
+  nw : NWorld := {}
+  nids : List String := []
+  nt0 : Nat := 0
 
 def nameSeed (st : St) (s : Nat) : St × String :=
   if s = 0 then (st, "-") else
@@ -72,6 +77,35 @@ def vpKey (vp : VP) : String :=
 
 def permOf (order : List String) (l : List VP) : List VP :=
   (l.filter (fun vp => !(order.contains (vpKey vp)))) ++ order.filterMap (fun k => l.find? (fun vp => vpKey vp == k))
+
+/-! node leg -/
+
+def sortStrs (l : List String) : List String := (l.toArray.qsort (· < ·)).toList
+
+def parseService (j : Json) : Service :=
+  { d := { id := jStr j "id", maxValidity := jNat j "maxValidity", didMethods := jStrs j "didMethods" },
+    endpoint := jStr j "endpoint", endpointHost := optStr j "endpointHost" }
+
+def parseEntry (j : Json) : DirEntry :=
+  { name := jStr j "name", isDir := jBool j "isDir", readOk := jBool j "readOk",
+    parsed := match j.getObjVal? "parsed" with
+      | .ok (.obj o) => some (parseService (.obj o))
+      | _ => none }
+
+def parseFwd (j : Json) : Fwd := { header := optStr j "header", headerHost := optStr j "host" }
+
+def kindStr : Option ErrKind → String
+  | none => "---"
+  | some k => (if k.invalid then "i" else "-") ++ (if k.didMethods then "d" else "-") ++ (if k.notFound then "n" else "-")
+
+def ntick (st : St) (j : Json) : St :=
+  if jHas j "now" && jNat j "now" > st.nw.t then { st with nw := { st.nw with t := jNat j "now" } } else st
+
+def nlists (st : St) : String :=
+  String.join (st.nids.map fun id =>
+    let s := st.nw.n.stores id
+    let rows := (s.rows.toArray.qsort (fun a b => a.ts < b.ts)).toList
+    s!" | {id} seed={if s.seed = 0 then "-" else "+"} ts={s.lastTs} [{String.intercalate " " (rows.map (showRow s st.nt0 true))}]")
 
 def step' (st : St) (j : Json) : St × List String :=
   let st := if jHas j "now" then tickTo st (jNat j "now") else st
@@ -122,6 +156,50 @@ def step' (st : St) (j : Json) : St × List String :=
     let (st, sS) := nameSeed st st.w.S.seed
     let rows := ((st.w.S.rowsAfter after).toArray.qsort (fun a b => a.ts < b.ts)).toList
     (st, [s!"get after={after} seed={sS} ts={st.w.S.lastTs} [{String.intercalate " " (rows.map fun r => s!"{r.ts}:{r.id}")}]"])
+  | "nconf" =>
+    let entries := (jArr j "entries").map parseEntry
+    let stat := match jStr j "stat" with
+      | "present" => DirStat.present
+      | "absent" => DirStat.absent
+      | _ => DirStat.otherError
+    let r := configure (fun n => n.endsWith Nuts.Facts.C16.definitionSuffix) Nuts.Facts.C16.defaultDefinitionsDir
+      { dir := jStr j "dir", serverIds := jStrs j "serverIds" } stat (jBool j "readDirOk") entries
+    match r with
+    | .ok defs =>
+      let all := sortStrs (defs.all.map fun (k, s) => s!"{k}={s.d.id}:{s.d.maxValidity}:{if s.d.didMethods.isEmpty then "-" else String.intercalate "," s.d.didMethods}")
+      let srv := sortStrs (defs.server.map fun (k, s) => s!"{k}={s.d.id}")
+      let t0 := jNat j "t0"
+      ({ st with nw := { n := { defs := defs }, t := t0 }, nids := sortStrs (defs.all.map (·.1)), nt0 := t0 },
+       [s!"nconf ok all=[{String.intercalate " " all}] server=[{String.intercalate " " srv}]"])
+    | o => ({ st with nw := {}, nids := [] }, ["nconf " ++ o.cls])
+  | "nregister" =>
+    let st := ntick st j
+    let (w', o) := nstep st.nw (.register (jStr j "sid") (parseFwd (jObj j "fwd")) (parseVP (jObj j "vp")))
+    let st := { st with nw := w' }
+    let out := match o with
+      | .done r => r.cls
+      | .forwarded ep => "fwd:register " ++ ep
+      | .notFound => "not-found"
+      | .cycle => "cycle"
+      | .inconsistent => "inconsistent"
+    (st, [s!"nreg {out} k={kindStr (o.kind Nuts.Facts.C16.verifyReturns Nuts.Facts.C16.registerExistsJoined)}{nlists st}"])
+  | "nget" =>
+    let st := ntick st j
+    let ts : Option Int := match (j.getObjVal? "ts") with
+      | .ok v => v.getInt?.toOption
+      | _ => none
+    let line := match apiGet st.nw.n (jStr j "sid") (parseFwd (jObj j "fwd")) ts with
+      | .rows rows seed last => s!"rows seed={if seed = 0 then "-" else "+"} ts={last} [{String.intercalate " " (rows.map fun r => s!"{r.ts}:{r.id}")}] k=---"
+      | .forwarded ep a => s!"fwd:get {ep} {a} k=---"
+      | .notFound => "not-found k=--n"
+      | .cycle => "cycle k=---"
+    (st, ["nget " ++ line])
+  | "nsearch" =>
+    let st := ntick st j
+    let line := match st.nw.n.search (jStr j "sid") st.nw.t with
+      | none => "not-found"
+      | some rows => "[" ++ String.intercalate " " (sortStrs (rows.map (·.id))) ++ "]"
+    (st, ["nsearch " ++ line])
   | o => (st, ["bad-op:" ++ o])
 
 end Nuts.Drv.C16
